@@ -67,6 +67,8 @@ func VH_C16_IncludeFirst()   { vhC16Rules("IncludeFirst", vhDefIncludeFirst(), v
 func VH_C16_IncludeMiddle()  { vhC16Rules("IncludeMiddle", vhDefIncludeMiddle(), vhInput()) }
 func VH_C16_IncludeNested()  { vhC16Rules("IncludeNested", vhDefIncludeNested(), vhInput()) }
 func VH_C16_IncludeDiamond() { vhC16Rules("IncludeDiamond", vhDefIncludeDiamond(), vhInput()) }
+func VH_C16_Astral()         { vhC16Rules("Astral", vhDefAstral(), vhInput()) }
+func VH_C16_OddNames()       { vhC16Rules("OddNames", vhDefOddNames(), vhInput()) }
 func VH_C16_ElidedActions()  { vhC16Rules("ElidedActions", vhDefElidedActions(), vhInput()) }
 func VH_C16_Backref()        { vhC16Rules("Backref", vhDefBackref(), vhInputASCII()) }
 func VH_C16_BackrefQuoted()  { vhC16Rules("BackrefQuoted", vhDefBackrefQuoted(), vhInputASCII()) }
